@@ -7,9 +7,17 @@
 // Alphabet: for every mounted service of the corpus (spec.C20B: every handler shape), the
 // request menu of each of its methods (checks/c20b/menu): valid, invalid (validation
 // failure), declared error (default ErrorResult / custom type / primitive), undeclared error
-// (plain error and service error: the default error encoder), every view, Accept json vs xml.
+// (plain error and service error: the default error encoder), every view, Accept json / xml /
+// gob / text/plain / text/html on the method that maps Accept; plus the RAW request for a path
+// the server does not know (the muxer's not-found handler under the mounted generated server).
 // One operation = one request issued through the GENERATED CLIENT whose Doer is the in-memory
-// wire (http.Request.Write -> http.ReadRequest -> goa muxer -> generated server -> stub).
+// wire (scheduling point -> http.Request.Write -> http.ReadRequest -> goa muxer -> generated
+// server -> stub). Two threads therefore use one generated client concurrently with different
+// payloads: request encoding, the wire and response decoding of both calls interleave.
+// Scenario dimensions: {requests in flight} x {encoding negotiated for all requests of the
+// scenario by setting Accept on the wire: as designed, xml, gob, text/plain, text/html (json
+// explicitly in menu (d))} x {sequential prefix request run on the mounted server before the
+// threads start: none, raw not-found, a valid request}.
 // Bound: 2 threads x 1 request over a covering set of request pairs per service (quick) /
 // all pairs + 3 threads over a covering set of triples (thorough); schedules as configured
 // by the driver (preemption bounds / all interleavings).
@@ -17,21 +25,27 @@
 // of the generated service, server, client and views packages; differential per-request
 // oracle: (status, headers, body modulo error ID, decoded client result or client error,
 // payload the service received, number of service invocations) must equal the sequential
-// reference of the same request alone on a freshly mounted server; no deadlock, no panic.
+// reference of the same request alone on a freshly mounted server (no prefix request, no
+// peer); no deadlock, no panic.
 package scen
 
 import (
+	"bytes"
+	"encoding/gob"
 	"encoding/json"
 	"errors"
 	"fmt"
 	"io"
+	"net/http"
 	"os"
 	"path/filepath"
 	"reflect"
 	"regexp"
 	"sort"
 	"strings"
+	"unsafe"
 
+	goahttp "goa.design/goa/v3/http"
 	goa "goa.design/goa/v3/pkg"
 	"goa.design/goa/v3/pkg/vrt"
 
@@ -51,10 +65,107 @@ type corpusInfo struct {
 	Designs []*designInfo `json:"designs"`
 }
 
-// op is one request of one thread.
+// op is one request of one thread (or the sequential prefix request): a request of a method's
+// menu through the generated client, or (raw) a hand-built request for a path the server does
+// not know, answered by the muxer's not-found handler.
 type op struct {
 	m   *spec.Method
 	req menu.Request
+	raw string // "" | "notfound"
+}
+
+// Encodings are the response encodings a scenario can negotiate for ALL its requests by
+// overriding the Accept header on the wire ("" = whatever the generated client sends).
+var Encodings = []struct{ Name, Accept string }{
+	{"json", "application/json"}, {"xml", "application/xml"}, {"gob", "application/gob"},
+	{"text", "text/plain"}, {"html", "text/html"},
+}
+
+// bEnv is the environment of one execution: the mounted service and the Accept override.
+type bEnv struct {
+	s      *drv.Svc
+	accept string
+}
+
+// wireDoer sits between the generated client and the in-memory wire of the harness: a
+// scheduling point (a real transport blocks here: other callers run between "request encoded"
+// and "request sent"), then the Accept override of the scenario.
+type wireDoer struct {
+	inner goahttp.Doer
+	env   *bEnv
+}
+
+func (d wireDoer) Do(req *http.Request) (*http.Response, error) {
+	vrt.Yield()
+	if d.env.accept != "" {
+		req.Header.Set("Accept", d.env.accept)
+	}
+	return d.inner.Do(req)
+}
+
+// wrapDoers replaces every <Method>Doer of the generated client the harness mounted. drv.Svc
+// keeps the client in an unexported reflect.Value field and verif/e2 is used as is, so the field
+// is reached through its address; if the layout changes the scenario setup fails (harness error,
+// never a silent pass).
+func wrapDoers(s *drv.Svc, wrap func(goahttp.Doer) goahttp.Doer) error {
+	f := reflect.ValueOf(s).Elem().FieldByName("client")
+	if !f.IsValid() || f.Type() != reflect.TypeOf(reflect.Value{}) {
+		return errors.New("drv.Svc has no reflect.Value field named client (harness layout changed)")
+	}
+	cv := *(*reflect.Value)(unsafe.Pointer(f.UnsafeAddr()))
+	if !cv.IsValid() || cv.Kind() != reflect.Ptr || cv.Elem().Kind() != reflect.Struct {
+		return errors.New("the mounted service has no generated HTTP client")
+	}
+	st := cv.Elem()
+	doerT := reflect.TypeOf((*goahttp.Doer)(nil)).Elem()
+	n := 0
+	for i := 0; i < st.NumField(); i++ {
+		fv := st.Field(i)
+		if fv.Type() == doerT && fv.CanSet() && !fv.IsNil() {
+			fv.Set(reflect.ValueOf(wrap(fv.Interface().(goahttp.Doer))))
+			n++
+		}
+	}
+	if n == 0 {
+		return errors.New("the generated client has no Doer field")
+	}
+	return nil
+}
+
+// rawBody is the thread body of a raw request: no generated client, the request goes straight
+// onto the wire and is answered by the muxer the generated server is mounted on.
+func rawBody(o op, tag string) func(any) any {
+	return func(env any) any {
+		e := env.(*bEnv)
+		req, err := http.NewRequest("GET", "http://verif.test/no-such-route/"+tag, nil)
+		if err != nil {
+			return "HARNESS: " + err.Error()
+		}
+		if e.accept != "" {
+			req.Header.Set("Accept", e.accept)
+		}
+		vrt.Yield()
+		resp, err := e.s.Do(req)
+		if err != nil {
+			return "HARNESS: " + err.Error()
+		}
+		b, _ := io.ReadAll(resp.Body)
+		var hs []string
+		for k, v := range resp.Header {
+			hs = append(hs, k+"="+strings.Join(v, ","))
+		}
+		sort.Strings(hs)
+		return fmt.Sprintf("status=%d headers=[%s] body=%s | service: not routed | client: raw request", resp.StatusCode, strings.Join(hs, "; "), showBody(resp.Header.Get("Content-Type"), string(b)))
+	}
+}
+
+// showBody renders a response body: error ids masked; gob is binary (and carries the random
+// error id): its length stands for it, its content shows in what the client decodes.
+func showBody(ct, b string) string {
+	if strings.Contains(ct, "gob") {
+		return fmt.Sprintf("gob[%d bytes]", len(b))
+	}
+	return mask(strings.TrimSpace(b))
 }
 
 func shapeOf(m *spec.Method) string {
@@ -132,8 +243,11 @@ func buildError(s *drv.Svc, syms map[string]any, svc *spec.Service, m *spec.Meth
 
 // body is the thread body: one request through the generated client, observed end to end.
 func body(svc *spec.Service, o op, tag string) func(any) any {
+	if o.raw != "" {
+		return rawBody(o, tag)
+	}
 	return func(env any) any {
-		s := env.(*drv.Svc)
+		s := env.(*bEnv).s
 		m := o.m
 		syms := s.ServiceSyms()
 		var herr error
@@ -199,7 +313,7 @@ func body(svc *spec.Service, o op, tag string) func(any) any {
 			}
 			sort.Strings(hs)
 			fmt.Fprintf(&sb, "status=%d headers=[%s] body=%s writeheaders=%d", call.Rec.Code, strings.Join(hs, "; "),
-				mask(strings.TrimSpace(call.Rec.Body.String())), call.WriteHeaders)
+				showBody(call.Rec.Header().Get("Content-Type"), call.Rec.Body.String()), call.WriteHeaders)
 		} else {
 			sb.WriteString("no-response")
 		}
@@ -225,7 +339,12 @@ func body(svc *spec.Service, o op, tag string) func(any) any {
 			enc := json.NewEncoder(&jb)
 			enc.SetEscapeHTML(false) // keep <id> maskable
 			_ = enc.Encode(cerr)
-			fmt.Fprintf(&sb, "error type=%T name=%s text=%q value=%s", cerr, name, mask(cerr.Error()), mask(strings.TrimSpace(jb.String())))
+			// a gob body quoted inside the client's error text carries the random error id in binary
+			hide := func(s string) string { return s }
+			if call.Rec != nil {
+				hide = gobIDMask(call.Rec.Header().Get("Content-Type"), call.Rec.Body.Bytes())
+			}
+			fmt.Fprintf(&sb, "error type=%T name=%s text=%q value=%s", cerr, name, hide(mask(cerr.Error())), hide(mask(strings.TrimSpace(jb.String()))))
 		case res == nil || m.Result == nil:
 			sb.WriteString("no result")
 		default:
@@ -242,20 +361,23 @@ func firstLine(s string) string {
 	return s
 }
 
-// diffClass says which parts of the observable deviate from the sequential reference.
+// diffClass names the FIRST stage of the round trip at which a request deviates from its
+// sequential reference (later stages follow from it, so one root cause gives one class per
+// request class): "service-input" (the service was not invoked with the payload this client
+// sent), "response" (the service got the right payload, the server answered something else),
+// "client" (the same response was decoded to something else).
 func diffClass(got, want string) string {
 	g, w := strings.Split(got, " | "), strings.Split(want, " | ")
-	names := []string{"response", "service", "client"}
 	if len(g) != 3 || len(w) != 3 {
 		return "shape"
 	}
-	var parts []string
-	for i := range names {
-		if g[i] != w[i] {
-			parts = append(parts, names[i])
-		}
+	switch {
+	case g[1] != w[1]:
+		return "service-input"
+	case g[0] != w[0]:
+		return "response"
 	}
-	return strings.Join(parts, "+")
+	return "client"
 }
 
 // class groups the labels of the menu into the request classes the pair coverage is about.
@@ -263,6 +385,9 @@ func class(label string) string {
 	l := label
 	if strings.HasPrefix(l, "accept:xml ") {
 		return "accept-xml-error"
+	}
+	if strings.HasPrefix(l, "accept:") && !strings.Contains(l, " ") {
+		return l // accept:json, accept:xml, accept:gob, accept:text/plain, accept:text/html: one class per encoding
 	}
 	if i := strings.IndexByte(l, ':'); i >= 0 {
 		l = l[:i]
@@ -336,10 +461,15 @@ func serviceScenarios(design string, sp *spec.Spec, svc *spec.Service) []vrt.Sce
 		}
 		for _, r := range menu.Requests(sp, svc, m, "t") {
 			perMethod[m.Name] = append(perMethod[m.Name], len(univ))
-			univ = append(univ, op{m, r})
+			univ = append(univ, op{m: m, req: r})
 		}
 	}
-	mk := func(thoroughOnly bool, idx ...int) vrt.Scenario {
+	// the raw not-found request is one more entry of the universe
+	rawNotFound := len(univ)
+	univ = append(univ, op{raw: "notfound", req: menu.Request{Label: "raw-notfound"}})
+	// mkx builds one scenario: enc names the encoding negotiated for ALL its requests (-1: what
+	// the generated client sends), pre the sequential prefix request (-1: none)
+	mkx := func(thoroughOnly bool, enc, pre int, idx ...int) vrt.Scenario {
 		var parts, sig []string
 		// thorough: two threads = all interleavings, and for the quick covering set also preemption bound 2 (the complete search
 		// costs a few dozen executions here and subsumes every bound); three threads =
@@ -348,10 +478,12 @@ func serviceScenarios(design string, sp *spec.Spec, svc *spec.Service) []vrt.Sce
 		// pairs outside the quick covering set: all interleavings only
 		sc := vrt.Scenario{Family: "c20B", ThoroughOnly: thoroughOnly, ThoroughBound: 2, NoThoroughComplete: len(idx) >= 3,
 			NoThoroughBounded: thoroughOnly && len(idx) == 2}
-		for t, i := range idx {
-			tag := fmt.Sprintf("t%d", t)
+		retag := func(i int, tag string) op {
+			if univ[i].raw != "" {
+				return univ[i]
+			}
 			m := univ[i].m
-			// the menu is regenerated with the thread's tag so that two requests of the same
+			// the menu is regenerated with the issuer's tag so that two requests of the same
 			// class carry different values
 			var req menu.Request
 			for _, r := range menu.Requests(sp, svc, m, tag) {
@@ -359,27 +491,58 @@ func serviceScenarios(design string, sp *spec.Spec, svc *spec.Service) []vrt.Sce
 					req = r
 				}
 			}
-			sc.Threads = append(sc.Threads, body(svc, op{m, req}, tag))
-			parts = append(parts, m.Name+":"+req.Label)
-			sig = append(sig, shapeOf(m)+":"+req.Label)
+			return op{m: m, req: req}
+		}
+		describe := func(o op) (part, sg string) {
+			if o.raw != "" {
+				return "raw:" + o.raw, "raw:" + o.raw
+			}
+			return o.m.Name + ":" + o.req.Label, shapeOf(o.m) + ":" + o.req.Label
+		}
+		for t, i := range idx {
+			tag := fmt.Sprintf("t%d", t)
+			o := retag(i, tag)
+			sc.Threads = append(sc.Threads, body(svc, o, tag))
+			p, sg := describe(o)
+			parts = append(parts, p)
+			sig = append(sig, sg)
 			// signatures carry the request CLASS only (one root cause in a template shows in
 			// every shape: the shape is in the scenario name and in the description)
-			sc.Labels = append(sc.Labels, class(req.Label))
+			sc.Labels = append(sc.Labels, class(o.req.Label))
 		}
 		sc.Name = fmt.Sprintf("c20B/%s/%s %s", design, svc.Name, strings.Join(parts, " || "))
 		sc.SigName = "c20B"
 		sc.DiffClass = diffClass
 		sc.Doc = "requests in flight on one mounted generated server: " + strings.Join(sig, " || ")
+		accept := ""
+		if enc >= 0 {
+			accept = Encodings[enc].Accept
+			sc.Name += " @accept=" + Encodings[enc].Name
+			sc.Doc += "; every request negotiates " + accept + " (Accept set on the wire)"
+		}
+		if pre >= 0 {
+			po := retag(pre, "pre")
+			pbody := body(svc, po, "pre")
+			sc.Prefix = func(env any) { _ = pbody(env) }
+			p, sg := describe(po)
+			sc.Name += " pre=" + p
+			sc.Doc += "; sequential prefix request on the same server before the threads start: " + sg
+		}
 		sc.Setup = func() any {
 			goa.VerifResetPatterns()
 			s, err := drv.Mount(design, sp, svc)
 			if err != nil {
 				panic("mount: " + err.Error())
 			}
-			return s
+			e := &bEnv{s: s, accept: accept}
+			if err := wrapDoers(s, func(d goahttp.Doer) goahttp.Doer { return wireDoer{inner: d, env: e} }); err != nil {
+				panic("mount: " + err.Error())
+			}
+			return e
 		}
 		return sc
 	}
+	mk := func(thoroughOnly bool, idx ...int) vrt.Scenario { return mkx(thoroughOnly, -1, -1, idx...) }
 	var out []vrt.Scenario
 	seen := map[string]bool{}
 	add := func(thoroughOnly bool, idx ...int) {
@@ -435,6 +598,81 @@ func serviceScenarios(design string, sp *spec.Spec, svc *spec.Service) []vrt.Sce
 		add(false, perMethod[mn][0], firstErr(next))
 		add(false, perMethod[mn][0], perMethod[next][0])
 	}
+	// ENCODINGS x OUTCOMES FROM NON-INITIAL STATES (quick and thorough). The designs fix which
+	// method negotiates what; here the Accept header is set on the wire, so EVERY generated
+	// handler answers in every encoding goa's ResponseEncoder knows, and a sequential prefix
+	// request runs on the mounted server before the threads start.
+	//  (c) per method that does not map Accept itself, per encoding e in {xml, gob, text/plain,
+	//      text/html} (json is what (a) and (b) already negotiate): prefix = raw request for an
+	//      unknown path (the muxer's not-found handler, negotiated to e), then
+	//      first valid || first valid, and first valid || first error request;
+	//      thorough: every pair of request classes of the method instead of these two;
+	//  (d) per service, per encoding e in all five: no prefix, raw not-found || first valid
+	//      request of the first method; and prefix = that valid request, then raw not-found ||
+	//      raw not-found.
+	addx := func(thoroughOnly bool, enc, pre int, idx ...int) {
+		sorted := append([]int{}, idx...)
+		sort.Ints(sorted)
+		k := fmt.Sprint(enc, pre, sorted)
+		if seen[k] {
+			return
+		}
+		seen[k] = true
+		out = append(out, mkx(thoroughOnly, enc, pre, sorted...))
+	}
+	mapsAccept := func(m *spec.Method) bool {
+		if m.HTTP == nil {
+			return false
+		}
+		for _, h := range m.HTTP.Headers {
+			if strings.EqualFold(h.Wire, "Accept") {
+				return true
+			}
+		}
+		return false
+	}
+	firstValid := func(mn string) int {
+		for _, i := range perMethod[mn] {
+			if univ[i].req.Err == "" {
+				return i
+			}
+		}
+		return perMethod[mn][0]
+	}
+	for _, m := range svc.Methods {
+		mn := m.Name
+		if len(perMethod[mn]) == 0 || mapsAccept(m) {
+			continue
+		}
+		for e := 1; e < len(Encodings); e++ {
+			v := firstValid(mn)
+			addx(false, e, rawNotFound, v, v)
+			if fe := firstErr(mn); univ[fe].req.Err != "" {
+				addx(false, e, rawNotFound, v, fe)
+			}
+			rep := map[string]int{}
+			var classes []string
+			for _, i := range perMethod[mn] {
+				c := class(univ[i].req.Label)
+				if _, ok := rep[c]; !ok {
+					rep[c] = i
+					classes = append(classes, c)
+				}
+			}
+			for a := 0; a < len(classes); a++ {
+				for b := a; b < len(classes); b++ {
+					addx(true, e, rawNotFound, rep[classes[a]], rep[classes[b]])
+				}
+			}
+		}
+	}
+	if len(names) > 0 {
+		v0 := firstValid(names[0])
+		for e := range Encodings {
+			addx(false, e, -1, rawNotFound, v0)
+			addx(false, e, v0, rawNotFound, rawNotFound)
+		}
+	}
 	// THOROUGH: all pairs of the universe, and triples: per method (first, first error, last)
 	// and across methods (first requests of three consecutive methods, and first + error + error).
 	for a := 0; a < len(univ); a++ {
@@ -452,6 +690,20 @@ func serviceScenarios(design string, sp *spec.Spec, svc *spec.Service) []vrt.Sce
 		}
 	}
 	return out
+}
+
+// gobIDMask returns a function hiding the random error id of a gob encoded error body wherever
+// the body is quoted (generated clients put the raw body of an unexpected response into their
+// error text). The id is found by decoding the body; a body without an ID field hides nothing.
+func gobIDMask(ct string, body []byte) func(string) string {
+	if !strings.Contains(ct, "gob") || len(body) == 0 {
+		return func(s string) string { return s }
+	}
+	var v struct{ ID string }
+	if err := gob.NewDecoder(bytes.NewReader(body)).Decode(&v); err != nil || len(v.ID) < 6 {
+		return func(s string) string { return s }
+	}
+	return func(s string) string { return strings.ReplaceAll(s, v.ID, "*") }
 }
 
 var (
